@@ -444,14 +444,20 @@ func c15Gen(r *kit.Rng) *c15Scenario {
 	if r.Chance(1, 25) {
 		return c15Deep(r)
 	}
-	size := r.Intn(3) // swarm knob: documents must straddle multiples of the writer's 4096-byte buffer
+	size := []int{0, 1, 1, 2, 2}[r.Intn(5)] // swarm knob: documents must straddle multiples of the writer's 4096-byte buffer
 	s := schema.GenerateRich(r, "m", []int{30, 60, 90}[size]+r.Intn(20), r.Range(2, 6))
-	o := model.GenOpts{Nasty: true, EmptyLL: true, MaxEntries: []int{2, 6, 12}[size], Density: []int{45, 75, 95}[size], KeyPool: 40}
-	t := model.Random(r, s, o.WithBudget([]int{60, 300, 700}[size]), 0)
+	schema.HostileEnums(r, s)
+	o := model.GenOpts{Nasty: true, EmptyLL: true, MaxEntries: []int{2, 10, 25}[size], Density: []int{45, 75, 95}[size], KeyPool: 40}
+	t := model.Random(r, s, o.WithBudget([]int{60, 600, 1500}[size]), 0)
+	// the swarm knob must bite: a "large" document that came out small (an absent
+	// container near the top prunes everything below it) is drawn again
+	for try := 0; try < 12 && size > 0 && len(t.JSON()) < []int{0, 4200, 9000}[size]; try++ {
+		t = model.Random(r, s, o.WithBudget([]int{60, 600, 1500}[size]), 0)
+	}
 	sc := &c15Scenario{Schema: s, Tree: t, FailAt: -1,
 		Pretty: r.Chance(1, 2), EnumIds: r.Chance(1, 2), Qualify: r.Chance(1, 2), Insert: r.Chance(1, 2)}
 	paths := t.AllPaths()
-	if len(paths) > 0 && r.Chance([]int{3, 1, 1}[size], 4) {
+	if len(paths) > 0 && r.Chance([]int{6, 1, 1}[size], 8) {
 		sc.At = paths[r.Intn(len(paths))]
 	}
 	if loc, ok := t.Resolve(sc.At); ok && loc.Tree != nil && r.Chance(1, 5) {
